@@ -802,12 +802,15 @@ package mocrelay
 
 //@ func appendNIP01String
 //@   serves C01
+//@   uses escPos_def escPos_mono
 //@   pure
-//@   ensures len(result) >= len(dst) + 2 + len(s) && forall(k, 0, len(dst), result[k] == dst[k])
-//@   ensures result[len(dst)] == '"' && result[len(result)-1] == '"'
+//@   ensures[C01] len(result) == len(dst) + 2 + escPos(s, len(s)) && forall(k, 0, len(dst), result[k] == dst[k])
+//@   ensures[C01] result[len(dst)] == '"' && result[len(result)-1] == '"'
+//@   ensures[C01] forall(i, 0, len(s), escAt(result, len(dst) + 1 + escPos(s, i), s[i]))
 //@   loop 1
-//@     invariant 0 <= i && i <= len(s) && len(dst) >= len(old(dst)) + 1 + i
+//@     invariant 0 <= i && i <= len(s) && len(dst) == len(old(dst)) + 1 + escPos(s, i)
 //@     invariant forall(k, 0, len(old(dst)), dst[k] == old(dst)[k]) && dst[len(old(dst))] == '"'
+//@     invariant forall(j, 0, i, escAt(dst, len(old(dst)) + 1 + escPos(s, j), s[j]))
 
 //@ func Event.Serialize
 //@   serves C01
